@@ -14,8 +14,10 @@ PID = 'C20'
 
 INPUTS = ['okE', 'okH', 'okA', 'okSDAC', 'okHTML', 'okDef', 'failR', 'failC', 'failP', 'failX']
 PRIORS = [None, 'okOdd', 'okX', 'failX']     # what the same interpreter was asked before (in-process entry points only)
-OUTARGS = ['none', 'rel', 'subdir', 'abs', 'dircomponent']
-STARTS = ['A', 'B/sub']
+# 'noext': a report name without extension; 'dotdir': the same inside a directory whose name contains a dot (the JSON name must be derived from
+# the file name only); the third starting directory has a dot in its own name, so that every relative argument is resolved below a dotted path
+OUTARGS = ['none', 'rel', 'subdir', 'abs', 'dircomponent', 'noext', 'dotdir']
+STARTS = ['A', 'B/sub', 'C.d/run']
 
 
 def lines_for(kind):
@@ -49,6 +51,13 @@ def cli_case(arg):
         os.makedirs(os.path.join(root, 'absdir'), exist_ok=True)
         target = os.path.join(root, 'absdir', 'y.out')
         argv.append(target)
+    elif outarg == 'noext':
+        argv.append('report')
+        target = os.path.join(cwd, 'report')
+    elif outarg == 'dotdir':
+        os.makedirs(os.path.join(cwd, 'v1.2'), exist_ok=True)
+        argv.append('v1.2/report')
+        target = os.path.join(cwd, 'v1.2', 'report')
     else:
         os.makedirs(os.path.join(cwd, 'x.out'), exist_ok=True)
         argv.append('x.out/x.out')
@@ -71,7 +80,7 @@ def cli_case(arg):
     env = dict(os.environ, PYTHONPATH=priv, PYTHONDONTWRITEBYTECODE='1')
     env.pop('GEOPHIRES_X_VERIF', None)
     p = subprocess.run(argv, cwd=cwd, env=env, capture_output=True, text=True, timeout=600)
-    out = {'rc': p.returncode, 'target': target, 'report': None, 'json_ok': None, 'stderr': p.stderr[-300:]}
+    out = {'rc': p.returncode, 'target': target, 'root': root, 'report': None, 'json_ok': None, 'stderr': p.stderr[-300:]}
     if os.path.isfile(target):
         with open(target, encoding='UTF-8') as f:
             out['report'] = sim.strip_clock(f.read())
@@ -222,6 +231,9 @@ def task(payload):
                 check.fail(res, 'reports_differ/cli', f'{ctx} report differs from the client report: {dl[0]!r} vs {dl[1]!r}')
             if o['json_ok'] is not True:
                 check.fail(res, f'cli/json_not_at_requested_path/{outarg}', f'{ctx} no valid JSON next to the report; files created: {o["created"]}')
+            extra = [x for x in o['created'] if x.endswith('.json') and os.path.join(o['root'], x) != os.path.splitext(o['target'])[0] + '.json']
+            if extra:
+                check.fail(res, f'cli/json_elsewhere/{outarg}', f'{ctx} a JSON file was written where it was not asked for: {extra}')
             if kind == 'okHTML' and not o['html_at_start_dir']:
                 check.fail(res, 'cli/relative_output_parameter_misplaced', f'{ctx} relative "HTML Output File" did not land in the starting directory; files: {o["created"]}')
         if o['stray_in_src']:
@@ -249,10 +261,10 @@ def run(tier, seed, budget=None):
     return e1.run_generic(
         sys.modules[__name__], PID, tier, seed, budget,
         rule=('finite complete product: 10 inputs (6 succeeding incl. add-ons, S-DAC-GT, one with a relative HTML output parameter, one relying on defaults; 4 failing '
-              'while reading / calculating / printing / through a bare sys.exit()) x {python -m geophires_x as a real subprocess x 5 output arguments (none, '
-              'relative, sub-directory, absolute, a name equal to a directory component); GeophiresXClient, direct main(), the client as embedded by the '
+              'while reading / calculating / printing / through a bare sys.exit()) x {python -m geophires_x as a real subprocess x 7 output arguments (none, '
+              'relative, sub-directory, absolute, a name equal to a directory component, a name without extension, the same below a directory with a dot in its name); GeophiresXClient, direct main(), the client as embedded by the '
               'Monte-Carlo work_package, each x {fresh interpreter, interpreter that already served a many-non-defaults request, a request with output-unit directives, interpreter that already '
-              'served an aborting request}} x 2 starting directories = 340 executions; reports compared across all entry points, file placement and '
+              'served an aborting request}} x 3 starting directories (one with a dot in its name); reports compared across all entry points, file placement and '
               'exit status on the CLI'),
         assumptions=['the direct main() entry point is given absolute paths (as the client does)',
                      'quick and thorough tiers are the same complete product'])
